@@ -73,7 +73,10 @@ var (
 	vFs64 = [][]float64{{1.5, 1e21}, {1e-7, 5e-324}, {math.Inf(-1), 0}}
 	vI64  = []int64{-5, math.MinInt64, math.MaxInt64}
 	vU64  = []uint64{1 << 63, math.MaxUint64, 0}
-	vTime = []time.Time{time.Date(2020, 1, 2, 3, 4, 5, 6, time.UTC), time.Date(1960, 1, 2, 3, 4, 5, 999999999, time.UTC), time.Unix(0, 0).UTC()}
+	// class 0: a weekday with a long name, nine fractional digits, a named zone east of UTC (the longest renderings of the
+	// text layouts); class 1: pre-epoch, nine nines, a zone with minutes west of UTC; class 2: the epoch in UTC
+	vTime = []time.Time{time.Date(2024, 5, 15, 10, 11, 12, 123456789, time.FixedZone("CEST", 2*3600)),
+		time.Date(1960, 1, 2, 3, 4, 5, 999999999, time.FixedZone("", -(3*3600+1800))), time.Unix(0, 0).UTC()}
 	vDur  = []time.Duration{time.Second, 250 * time.Nanosecond, -90 * time.Minute}
 	vDurs = [][]time.Duration{{time.Second, time.Millisecond}, {1, -1}, {math.MaxInt64, 0}}
 	vTms  = [][]time.Time{{vTime[0], vTime[1]}, {vTime[1], vTime[2]}, {vTime[2], vTime[0]}}
@@ -177,6 +180,14 @@ func applySet(name string) func() {
 		zerolog.TimeFieldFormat = zerolog.TimeFormatUnixMicro
 	case "unixnano":
 		zerolog.TimeFieldFormat = zerolog.TimeFormatUnixNano
+	case "rfc3339nano":
+		zerolog.TimeFieldFormat = time.RFC3339Nano
+	case "rfc850":
+		zerolog.TimeFieldFormat = time.RFC850
+	case "rfc1123z":
+		zerolog.TimeFieldFormat = time.RFC1123Z
+	case "longlayout":
+		zerolog.TimeFieldFormat = "Monday, 02-January-2006 15:04:05.000000000 -07:00 MST (day 002)"
 	case "durint":
 		zerolog.DurationFieldInteger = true
 	case "dursec":
@@ -188,6 +199,9 @@ func applySet(name string) func() {
 		zerolog.TimeFieldFormat, zerolog.DurationFieldUnit, zerolog.DurationFieldInteger, zerolog.FloatingPointPrecision = tf, du, di, fp
 	}
 }
+
+// stamp is the clock of Timestamp() and of the context timestamp hook: the time of the current value class
+func stamp() time.Time { return vTime[variant] }
 
 func runChain(l *zerolog.Logger, ops []func(*zerolog.Event) *zerolog.Event, send bool) {
 	e := l.Info()
@@ -233,6 +247,7 @@ func main() {
 			}
 		}
 		variant = c.Var % 3
+		zerolog.TimestampFunc = stamp
 		restore := applySet(c.Set)
 		w := &countW{}
 		l := mkLogger(w, c)
